@@ -35,6 +35,8 @@ type DocSpec struct {
 	URLSort   []string   `json:"url_sort,omitempty"`
 	URLPage   [][2]any   `json:"url_page,omitempty"`
 	URLInc    [][]string `json:"url_include,omitempty"` // inclusion paths as relationship names from the URL's type
+	ResMeta   bool       `json:"resource_meta,omitempty"` // every resource carries its own meta object
+	SpareCap  bool       `json:"spare_capacity,omitempty"` // the selection lists are slices with spare capacity
 }
 
 var prefixPool = []string{"", "/", "https://example.org", "https://example.org/", "https://example.org/api/v1", "/api/", "http://h/a b", "https://example.org/\"q\""}
@@ -282,6 +284,8 @@ func genDoc(r *RNG, o docOpts) *DocSpec {
 	if r.Chance(1, 8) {
 		d.Links = map[string]string{"next": "/n?page=2", "about": genString(r)}
 	}
+	d.ResMeta = r.Chance(1, 4)
+	d.SpareCap = r.Chance(1, 3)
 	t0 := &s.Types[0]
 	if r.Chance(1, 4) {
 		// a filter with unsorted lists (nothing about marshaling may reorder them)
@@ -342,7 +346,7 @@ func copyStrMap(m map[string][]string) map[string][]string {
 func (d *DocSpec) build() *docBuilt {
 	b := &docBuilt{Schema: buildSchema(d.Schema)}
 	doc := &jsonapi.Document{PrePath: d.Prefix, RelData: copyStrMap(d.RelData)}
-	mk := func(rs *ResSpec) jsonapi.Resource { return buildResource(d.Schema.Type(rs.Type), rs) }
+	mk := func(rs *ResSpec) jsonapi.Resource { return buildResource(rs.ownType(d.Schema.Type(rs.Type)), rs) }
 	switch d.Kind {
 	case "null":
 		doc.Data = nil
@@ -412,12 +416,28 @@ func (d *DocSpec) build() *docBuilt {
 			doc.Links[k] = jsonapi.Link{HRef: v}
 		}
 	}
+	if d.ResMeta {
+		specs := append(append([]*ResSpec{}, d.Primary...), d.Included...)
+		for i, res := range append(append([]jsonapi.Resource{}, b.Primary...), b.Included...) {
+			if mh, ok := res.(jsonapi.MetaHolder); ok && i < len(specs) {
+				mh.SetMeta(jsonapi.Meta{"resource-meta": "of-" + specs[i].Type + "/" + specs[i].ID, "count": len(specs[i].ID)})
+			}
+		}
+	}
 	b.Doc = doc
 	b.URL = &jsonapi.URL{
 		Fragments: append([]string{}, d.Frags...),
 		IsCol:     len(d.Frags) == 1,
 		ResType:   d.Frags[0],
 		Params:    &jsonapi.Params{Fields: copyStrMap(d.Fields), SortingRules: []string{}, Page: map[string]any{}},
+	}
+	if d.SpareCap {
+		for k, v := range b.URL.Params.Fields {
+			b.URL.Params.Fields[k] = append(make([]string, 0, len(v)+3), v...)
+		}
+		for k, v := range doc.RelData {
+			doc.RelData[k] = append(make([]string, 0, len(v)+2), v...)
+		}
 	}
 	if d.URLFilter != nil {
 		b.URL.Params.Filter = d.URLFilter.build()
